@@ -1,64 +1,68 @@
-(* C02 — concurrent Set/Get/Delete histories are linearizable per key. (a) LinCheck.v: a VERIFIED decision procedure for linearizability against the lossy register (sound and complete), its windowed form, and the three consequences named in the property; the conc stream feeds real histories to the extracted checker. (b) HtableLtsProofs.v: lock-free lookups against the single writer at the granularity of atomic loads/stores: a hit returns an item of that key alive during the lookup, a miss overlaps an instant at which the key was unpublished. (c) the strict statement is refuted on the table LTS inside ONE in-flight insert (present/absent/present): finding F10. Only `exact` + Print Assumptions. *)
-Require Import KV.Base KV.HtableModel KV.HtableProofs KV.HtableTrace KV.HtableLts KV.HtableLtsProofs KV.LinCheck.
+(* C02 — concurrent Set/Get/Delete histories are linearizable per key. (a) LinCheck.v: a VERIFIED decision procedure for linearizability against the lossy register (sound and complete), its windowed form, and the three consequences named in the property; the conc stream feeds real histories to the extracted checker. (b) HtableLtsProofs.v: lock-free lookups against the single writer at the granularity of atomic loads/stores: a hit returns an item of that key alive during the lookup, a miss overlaps an instant at which the key was unpublished. (c) the strict statement is refuted on the table LTS inside ONE in-flight insert (present/absent/present): finding F10. Only `exact` + Print Assumptions. (c) MutexLinearizability.v: for LRU / LFU / FIFO every Set, Delete and Get runs under the shard lock; any object whose operations are lock-protected bodies is linearizable with the lock acquisition as linearization point, instantiated to the lossy register of LinCheck. *)
+Require Import KV.Base KV.HtableModel KV.HtableProofs KV.HtableTrace KV.HtableLts KV.HtableLtsProofs KV.LinCheck KV.MutexAtomicity KV.MutexLinearizability.
 Open Scope Z_scope.
 
 (* the checker accepts exactly the linearizable histories of the lossy register *)
 Theorem c02_checker_correct :
-  forall (init : option Z) (h : list call), lin_check init h = true <-> linearizable init h.
+  forall (init : option Z) (h : list LinCheck.call),
+         lin_check init h = true <-> LinCheck.linearizable init h.
 Proof. exact lin_check_correct. Qed.
 
 (* cutting at quiescent points and chaining the possible contents is exact *)
 Theorem c02_windowed_checker_correct :
-  forall (init : option Z) (ws : list (list call)),
+  forall (init : option Z) (ws : list (list LinCheck.call)),
          windows_ok ws ->
-         wf (concat ws) -> lin_check_windows_exact init ws = true <-> linearizable init (concat ws).
+         wf (concat ws) ->
+         lin_check_windows_exact init ws = true <-> LinCheck.linearizable init (concat ws).
 Proof. exact lin_check_windows_exact_correct. Qed.
 
 (* the stream form the driver runs is exact *)
 Theorem c02_stream_checker_correct :
-  forall (init x : option Z) (ws : list (list call)),
+  forall (init x : option Z) (ws : list (list LinCheck.call)),
          windows_ok ws ->
          wf (concat ws) ->
          (forall o : list Z, In o (run_out lin_chain_step [init] (map (enc_window x) ws)) -> o = [1]) <->
-         linearizable init (concat ws).
+         LinCheck.linearizable init (concat ws).
 Proof. exact lin_chain_stream_correct. Qed.
 
 (* a Get never returns a value older than one whose Set completed before the Get began *)
 Theorem c02_no_stale_after_set :
-  forall (init : option Z) (h : list call) (w1 w2 g : call) (v1 v2 : Z),
-         linearizable init h ->
+  forall (init : option Z) (h : list LinCheck.call) (w1 w2 g : LinCheck.call) (v1 v2 : Z),
+         LinCheck.linearizable init h ->
          In w2 h ->
          In g h ->
-         op w1 = KSet v1 false ->
-         op w2 = KSet v2 false ->
+         LinCheck.op w1 = KSet v1 false ->
+         LinCheck.op w2 = KSet v2 false ->
          v1 <> v2 ->
-         only_writer h v1 w1 -> ret w1 < inv w2 -> ret w2 < inv g -> op g <> KGet (Some v1).
+         only_writer h v1 w1 -> ret w1 < inv w2 -> ret w2 < inv g -> LinCheck.op g <> KGet (Some v1).
 Proof. exact no_stale_read. Qed.
 
 (* nor a value whose Delete completed before the Get began *)
 Theorem c02_no_value_after_delete :
-  forall (init : option Z) (h : list call) (w d g : call) (v : Z) (ok : bool),
-         linearizable init h ->
+  forall (init : option Z) (h : list LinCheck.call) (w d g : LinCheck.call) 
+           (v : Z) (ok : bool),
+         LinCheck.linearizable init h ->
          In d h ->
          In g h ->
-         op w = KSet v false ->
-         op d = KDelete ok ->
-         only_writer h v w -> ret w < inv d -> ret d < inv g -> op g <> KGet (Some v).
+         LinCheck.op w = KSet v false ->
+         LinCheck.op d = KDelete ok ->
+         only_writer h v w -> ret w < inv d -> ret d < inv g -> LinCheck.op g <> KGet (Some v).
 Proof. exact no_read_after_delete. Qed.
 
 (* successive reads never go backwards *)
 Theorem c02_reads_never_go_back :
-  forall (init : option Z) (h : list call) (w1 w2 g1 g2 : call) (v1 v2 : Z),
-         linearizable init h ->
+  forall (init : option Z) (h : list LinCheck.call) (w1 w2 g1 g2 : LinCheck.call) (v1 v2 : Z),
+         LinCheck.linearizable init h ->
          In g1 h ->
          In g2 h ->
-         op w1 = KSet v1 false ->
-         op w2 = KSet v2 false ->
-         op g1 = KGet (Some v2) ->
+         LinCheck.op w1 = KSet v1 false ->
+         LinCheck.op w2 = KSet v2 false ->
+         LinCheck.op g1 = KGet (Some v2) ->
          v1 <> v2 ->
          init <> Some v2 ->
          only_writer h v1 w1 ->
-         only_writer h v2 w2 -> ret w1 < inv w2 -> ret g1 < inv g2 -> op g2 <> KGet (Some v1).
+         only_writer h v2 w2 ->
+         ret w1 < inv w2 -> ret g1 < inv g2 -> LinCheck.op g2 <> KGet (Some v1).
 Proof. exact monotonic_reads. Qed.
 
 (* lock-free hit: an item of that key, alive at some instant during the lookup *)
@@ -67,7 +71,7 @@ Theorem c02_reader_hit_sound :
          (forall k : Z, 0 <= hashf k) ->
          forall (g0 : gstate) (r : nat) (k h : Z) (rest : list rop) (sch : list nat) 
            (g2 : gstate) (v : Z),
-         reachable hashf g0 ->
+         HtableLtsProofs.reachable hashf g0 ->
          rpcof (rth g0 r) = RB ->
          rscript (rth g0 r) = RLookup k h :: rest ->
          rpcof (rth (lfinal g0 sch) r) <> RB ->
@@ -83,7 +87,7 @@ Theorem c02_reader_miss_sound :
   forall hashf : Z -> Z,
          (forall k : Z, 0 <= hashf k) ->
          forall (g0 : gstate) (r : nat) (k h : Z) (rest : list rop) (sch : list nat) (g2 : gstate),
-         reachable hashf g0 ->
+         HtableLtsProofs.reachable hashf g0 ->
          rpcof (rth g0 r) = RB ->
          rscript (rth g0 r) = RLookup k h :: rest ->
          rpcof (rth (lfinal g0 sch) r) <> RB ->
@@ -98,7 +102,7 @@ Theorem c02_resident_found :
          (forall k : Z, 0 <= hashf k) ->
          forall (g0 : gstate) (r : nat) (k h : Z) (rest : list rop) (sch : list nat) 
            (g2 : gstate) (o : list Z) (x : item),
-         reachable hashf g0 ->
+         HtableLtsProofs.reachable hashf g0 ->
          rpcof (rth g0 r) = RB ->
          rscript (rth g0 r) = RLookup k h :: rest ->
          rpcof (rth (lfinal g0 sch) r) <> RB ->
@@ -117,7 +121,7 @@ Theorem c02_absent_not_found :
          (forall k : Z, 0 <= hashf k) ->
          forall (g0 : gstate) (r : nat) (k h : Z) (rest : list rop) (sch : list nat) 
            (g2 : gstate) (o : list Z),
-         reachable hashf g0 ->
+         HtableLtsProofs.reachable hashf g0 ->
          rpcof (rth g0 r) = RB ->
          rscript (rth g0 r) = RLookup k h :: rest ->
          rpcof (rth (lfinal g0 sch) r) <> RB ->
@@ -134,7 +138,7 @@ Theorem c02_never_wrong_key :
          (forall k : Z, 0 <= hashf k) ->
          forall (g0 : gstate) (r : nat) (k h : Z) (rest : list rop) (sch : list nat) 
            (g2 : gstate) (v : Z),
-         reachable hashf g0 ->
+         HtableLtsProofs.reachable hashf g0 ->
          rpcof (rth g0 r) = RB ->
          rscript (rth g0 r) = RLookup k h :: rest ->
          rpcof (rth (lfinal g0 sch) r) <> RB ->
@@ -142,6 +146,77 @@ Theorem c02_never_wrong_key :
          HtableLts.lstep (lfinal g0 sch) (S r) = Some (g2, [0; 1; v]) ->
          exists it : item, ikey it = k /\ ival it = v.
 Proof. exact never_wrong_key. Qed.
+
+(* every history of lock-protected calls (write-locked bodies and read-locked observations, any threads, any schedule) is linearizable; the witness order is the lock-acquisition order *)
+Theorem c02_lock_protected_linearizable :
+  forall (S R : Type) (s0 : S) (scripts : list (list (op S R))) (w : wstate S R),
+         wreachable s0 scripts w ->
+         linearizable_with s0 (w_hist w) (spec_run s0 (w_lin w)) /\
+         writes_of (w_lin w) = g_acq (w_st w).
+Proof. exact MutexLinearizability.lock_protected_linearizable. Qed.
+
+(* ...in existential form *)
+Theorem c02_lock_protected_history_linearizable :
+  forall (S R : Type) (s0 : S) (scripts : list (list (op S R))) (w : wstate S R),
+         wreachable s0 scripts w -> linearizable s0 (w_hist w).
+Proof. exact MutexLinearizability.lock_protected_history_linearizable. Qed.
+
+(* instantiated to one key as a lossy register (Set / rejected Set / Delete / Get / Exists / silent eviction): the history is linearizable in LinCheck's sense *)
+Theorem c02_locked_register_linearizable :
+  forall (s0 : LossyRegister.V) (scripts : list (list (op LossyRegister.V LossyRegister.Rr)))
+           (w : wstate LossyRegister.V LossyRegister.Rr),
+         LossyRegister.reg_scripts scripts ->
+         wreachable s0 scripts w -> LinCheck.linearizable s0 (LossyRegister.reg_calls s0 w).
+Proof. exact MutexLinearizability.LossyRegister.register_linearizable. Qed.
+
+(* locked policies: a Get invoked after Set v2 returned (itself invoked after Set v1 returned) does not return v1 *)
+Theorem c02_locked_no_stale_read :
+  forall (s0 : LossyRegister.V) (scripts : list (list (op LossyRegister.V LossyRegister.Rr)))
+           (w : wstate LossyRegister.V LossyRegister.Rr) (t1 q1 p1 : nat)
+           (c1 : lcall LossyRegister.V LossyRegister.Rr) (r1 : res LossyRegister.Rr) 
+           (t2 q2 p2 : nat) (c2 : lcall LossyRegister.V LossyRegister.Rr) 
+           (r2 : res LossyRegister.Rr) (tg qg pg : nat) (cg : lcall LossyRegister.V LossyRegister.Rr)
+           (rg : res LossyRegister.Rr) (v1 v2 : Z),
+         LossyRegister.reg_scripts scripts ->
+         wreachable s0 scripts w ->
+         LossyRegister.completed w t1 q1 p1 c1 r1 ->
+         LossyRegister.kop_of r1 = Some (KSet v1 false) ->
+         LossyRegister.completed w t2 q2 p2 c2 r2 ->
+         LossyRegister.kop_of r2 = Some (KSet v2 false) ->
+         LossyRegister.completed w tg qg pg cg rg ->
+         v1 <> v2 ->
+         only_writer (LossyRegister.reg_calls s0 w) v1
+           {| inv := Z.of_nat q1; ret := Z.of_nat p1; LinCheck.op := KSet v1 false |} ->
+         (p1 < q2)%nat -> (p2 < qg)%nat -> LossyRegister.kop_of rg <> Some (KGet (Some v1)).
+Proof. exact MutexLinearizability.LossyRegister.get_not_stale_direct. Qed.
+
+(* locked policies: a Get invoked after a Delete returned does not return the deleted value *)
+Theorem c02_locked_no_value_after_delete :
+  forall (s0 : LossyRegister.V) (scripts : list (list (op LossyRegister.V LossyRegister.Rr)))
+           (w : wstate LossyRegister.V LossyRegister.Rr) (t1 q1 p1 : nat)
+           (c1 : lcall LossyRegister.V LossyRegister.Rr) (r1 : res LossyRegister.Rr) 
+           (td qd pd : nat) (cd : lcall LossyRegister.V LossyRegister.Rr) 
+           (rd : res LossyRegister.Rr) (ok : bool) (tg qg pg : nat)
+           (cg : lcall LossyRegister.V LossyRegister.Rr) (rg : res LossyRegister.Rr) 
+           (v : Z),
+         LossyRegister.reg_scripts scripts ->
+         wreachable s0 scripts w ->
+         LossyRegister.completed w t1 q1 p1 c1 r1 ->
+         LossyRegister.kop_of r1 = Some (KSet v false) ->
+         LossyRegister.completed w td qd pd cd rd ->
+         LossyRegister.kop_of rd = Some (KDelete ok) ->
+         LossyRegister.completed w tg qg pg cg rg ->
+         only_writer (LossyRegister.reg_calls s0 w) v
+           {| inv := Z.of_nat q1; ret := Z.of_nat p1; LinCheck.op := KSet v false |} ->
+         (p1 < qd)%nat -> (pd < qg)%nat -> LossyRegister.kop_of rg <> Some (KGet (Some v)).
+Proof. exact MutexLinearizability.LossyRegister.get_not_deleted_direct. Qed.
+
+(* nobody placed later in the witness order responded before an earlier one was invoked *)
+Theorem c02_real_time_timestamps :
+  forall (S R : Type) (h : list (event S R)) (ts : list nat) (i j : nat),
+         rt_respected h ts ->
+         (i < j)%nat -> (j < length ts)%nat -> ~ (ret_pos h ts j < inv_pos h ts i)%nat.
+Proof. exact MutexLinearizability.rt_timestamps. Qed.
 
 (* strict atomicity fails inside one in-flight re-insert: present / absent / present (finding F10) *)
 Theorem c02_atomic_refuted :
@@ -177,4 +252,10 @@ Print Assumptions c02_reader_miss_sound.
 Print Assumptions c02_resident_found.
 Print Assumptions c02_absent_not_found.
 Print Assumptions c02_never_wrong_key.
+Print Assumptions c02_lock_protected_linearizable.
+Print Assumptions c02_lock_protected_history_linearizable.
+Print Assumptions c02_locked_register_linearizable.
+Print Assumptions c02_locked_no_stale_read.
+Print Assumptions c02_locked_no_value_after_delete.
+Print Assumptions c02_real_time_timestamps.
 Print Assumptions c02_atomic_refuted.
